@@ -10,7 +10,7 @@ BASE = os.path.join(VERIF, "seeded")
 
 HEAD = """# Seeded breaking changes and what the checks reported
 
-Four rounds, each produced by six fresh sub-agents that saw only the property texts and a private worktree (round 2, ids ending in `-r2`, was asked for subtler changes than round 1; round 3, `-r3`, for changes on rarely taken paths; round 4, `-r4`, for changes that only matter when two features meet). All compile and pass the 82 pinned tests. `tools/seeded.py` applies one change at a time to /repo, runs the quick check of the targeted property (`--also` adds others), undoes it; `tools/seeded_summary.py` writes this table from the recorded results.
+Five rounds, each produced by four to six fresh sub-agents that saw only the property texts and a private worktree (round 2, ids ending in `-r2`, was asked for subtler changes than round 1; round 3, `-r3`, for changes on rarely taken paths; round 4, `-r4`, for changes that only matter when two features meet; round 5, `-r5`, for changes in code that had just been repaired). All compile and pass the 82 pinned tests. `tools/seeded.py` applies one change at a time to /repo, runs the quick check of the targeted property (`--also` adds others), undoes it; `tools/seeded_summary.py` writes this table from the recorded results.
 
 `caught` = `yes`: by the check of the targeted property; `by Cxx`: the targeted property's check is silent but the listed checks of the suite report it (the change sits in a component another property owns); `NO`: no check run on it reported it.
 
